@@ -8,10 +8,12 @@ import json
 class Facts:
     def __init__(self, doc):
         from .normalize import (canonicalize_generics, transparent_helpers, canonical_apis, expand_combinators, eliminate_try,
-                                thread_known_discriminants, expand_int_try_from, expand_for_each, pinned_field_names, expand_result_ok, expand_find_map, pinned_adt_paths, expand_closure_calls, expand_array_try_from, drop_dead_closures, expand_array_from_fn, unroll_literal_loops)
+                                thread_known_discriminants, expand_int_try_from, expand_for_each, pinned_field_names, expand_result_ok, expand_find_map, pinned_adt_paths, expand_closure_calls, expand_array_try_from, drop_dead_closures, expand_array_from_fn, unroll_literal_loops, materialize_default_methods, hoist_return_conversion)
+        doc = hoist_return_conversion(doc)
         doc = canonicalize_generics(doc)
         doc = pinned_adt_paths(doc)
         doc = pinned_field_names(doc)
+        doc = materialize_default_methods(doc)
         doc = transparent_helpers(doc)
         doc = canonical_apis(doc)
         doc = expand_int_try_from(doc)
